@@ -209,7 +209,9 @@ func (s *FixedSliceReader) ReadPossiblyZeroTerminatedString(maxLen int) (str str
 }
 
 // ReadBytes - read a slice of n bytes
-// Return empty slice if n bytes not available
+// Return empty slice if n bytes not available.
+// The result is a sub-slice of the underlying buffer (no copy) with its capacity limited to n,
+// so that appending to it allocates instead of overwriting the bytes that follow in the buffer.
 func (s *FixedSliceReader) ReadBytes(n int) []byte {
 	if n < 0 {
 		s.err = fmt.Errorf("attempt to read negative number of bytes: %d", n)
@@ -222,17 +224,17 @@ func (s *FixedSliceReader) ReadBytes(n int) []byte {
 		s.err = ErrSliceRead
 		return []byte{}
 	}
-	res := s.slice[s.pos : s.pos+n]
+	res := s.slice[s.pos : s.pos+n : s.pos+n]
 	s.pos += n
 	return res
 }
 
-// RemainingBytes - return remaining bytes of this slice
+// RemainingBytes - return remaining bytes of this slice (capacity limited to its length, see ReadBytes)
 func (s *FixedSliceReader) RemainingBytes() []byte {
 	if s.err != nil {
 		return []byte{}
 	}
-	res := s.slice[s.pos:]
+	res := s.slice[s.pos:len(s.slice):len(s.slice)]
 	s.pos = s.Length()
 	return res
 }
